@@ -120,3 +120,108 @@ def hashseed(cls_short: str, seeds=(0, 1, 2, 3, 4, 5)):
             if la != lb:
                 return f"output depends on PYTHONHASHSEED: {la[:300]} VS {lb[:300]}"
     return None
+
+
+def _ctx(qc=None, **kw):
+    qc = qc or pk.Query
+    return qc.SQL_CONTEXT.copy(**kw)
+
+
+def _slot_get(obj, rk):
+    """value at a canonical slot path such as self.left / self.values[*] / self._orderbys[*].0"""
+    cur = obj
+    parts = rk.replace("self.", "", 1).replace("[*]", ".[*]").split(".")
+    trail = []
+    for p in parts:
+        if not p:
+            continue
+        if p == "[*]":
+            if not cur:
+                return None, None
+            trail.append((cur, 0))
+            cur = cur[0]
+        elif p.isdigit():
+            trail.append((cur, int(p)))
+            cur = cur[int(p)]
+        else:
+            trail.append((cur, p))
+            cur = getattr(cur, p, None) if not isinstance(cur, dict) else cur.get(p)
+        if cur is None:
+            return None, None
+    return cur, trail
+
+
+def _slot_set(obj, trail, value):
+    """returns a shallow copy of obj with the slot replaced (containers copied along the way)"""
+    new = copy.copy(obj)
+    holder, key = trail[0]
+    if len(trail) == 1:
+        if isinstance(key, str):
+            setattr(new, key, value)
+        return new
+    # rebuild containers from the inside out
+    v = value
+    for holder, key in reversed(trail[1:]):
+        if isinstance(holder, (list, tuple)):
+            lst = list(holder)
+            lst[key] = v
+            v = type(holder)(lst) if isinstance(holder, tuple) else lst
+        else:
+            h2 = copy.copy(holder)
+            setattr(h2, key, v)
+            v = h2
+    setattr(new, trail[0][1], v)
+    return new
+
+
+def position_site(func_short, cls_short, rk, flag, want):
+    """C10/C12: a child rendered at a site carries an alias; it must (want=True) or must not (want=False) be
+    printed there"""
+    if flag != "with_alias":
+        return None
+    name = func_short.split(".")[-1]
+    for label, obj in _objs_of(cls_short, name if name == "get_sql" else None) or universe():
+        child, trail = _slot_get(obj, rk) if rk.startswith("self.") else (None, None)
+        if child is None or not hasattr(child, "as_"):
+            continue
+        try:
+            marked = _slot_set(obj, trail, child.as_("zz9"))
+        except Exception:
+            continue
+        for cname, ctx in contexts():
+            for outer_alias in (True, False):
+                try:
+                    sql = marked.get_sql(ctx.copy(with_alias=outer_alias))
+                except Exception:
+                    continue
+                q = (ctx.alias_quote_char or ctx.quote_char or "")
+                printed = f"{q}zz9{q}" in sql and (" " + f"{q}zz9{q}") in sql
+                if printed != bool(want):
+                    return (f"{label} with the child at {rk} aliased 'zz9', rendered by {cname} with "
+                            f"with_alias={outer_alias}: {sql!r} - the child's alias is "
+                            f"{'printed' if printed else 'missing'} in a position that "
+                            f"{'must not' if not want else 'must'} print it")
+    return None
+
+
+def alias_class(cls_short, mode):
+    """C12: a term of this class with an alias, in a defining (on) / operand (off) position"""
+    for label, obj in _objs_of(cls_short, "get_sql"):
+        if not hasattr(obj, "as_"):
+            continue
+        try:
+            a = obj.as_("zz9")
+        except Exception:
+            continue
+        for cname, ctx in contexts():
+            q = (ctx.alias_quote_char or ctx.quote_char or "")
+            try:
+                sql = a.get_sql(ctx.copy(with_alias=(mode == "on")))
+            except Exception:
+                continue
+            ends = sql.endswith(f"{q}zz9{q}")
+            if mode == "on" and not ends:
+                return f"{label}.as_('zz9') in a defining position ({cname}, with_alias=True) renders {sql!r}: alias missing"
+            if mode == "off" and f"{q}zz9{q}" in sql:
+                return f"{label}.as_('zz9') in an operand position ({cname}, with_alias=False) renders {sql!r}: alias printed"
+    return None
